@@ -4,6 +4,7 @@
 Pattern source is python; identifiers of the form _A_ .. _Z_ / _A1_ (underscore, capital, optional digits, underscore)
 are *name variables*: they match any ast.Name and must match the same name everywhere; identifiers of the form
 _EA_ .. _EZ_ are *expression variables*: they match any expression (the same one everywhere, compared by unparse).
+A statement `...` inside a statement list of the pattern matches any run of statements.
 `find(pattern, tree)` returns the first (node, bindings); `match(pattern, node)` returns bindings or None."""
 
 import ast
@@ -59,14 +60,10 @@ def _match(p, n, b):
             continue
         pv, nv = getattr(p, f, None), getattr(n, f, None)
         if isinstance(pv, list):
-            if not isinstance(nv, list) or len(pv) != len(nv):
+            if not isinstance(nv, list):
                 return False
-            for x, y in zip(pv, nv):
-                if isinstance(x, ast.AST):
-                    if not _match(x, y, b):
-                        return False
-                elif x != y:
-                    return False
+            if not _match_list(pv, nv, b):
+                return False
         elif isinstance(pv, ast.AST):
             if not isinstance(nv, ast.AST) or not _match(pv, nv, b):
                 return False
@@ -82,15 +79,58 @@ def _match(p, n, b):
     return True
 
 
+def _is_gap(x):
+    return isinstance(x, ast.Expr) and isinstance(x.value, ast.Constant) and x.value.value is Ellipsis
+
+
+def _is_doc(x):
+    return isinstance(x, ast.Expr) and isinstance(x.value, ast.Constant) and isinstance(x.value.value, str)
+
+
+def _match_list(pv, nv, b):
+    """Sequence match; a statement `...` in the pattern matches any run of statements (possibly empty); docstring
+    statements of the subject are ignored."""
+    if nv and isinstance(nv[0], ast.stmt):
+        nv = [y for y in nv if not _is_doc(y)]
+    if not any(_is_gap(x) for x in pv):
+        if len(pv) != len(nv):
+            return False
+        for x, y in zip(pv, nv):
+            if isinstance(x, ast.AST):
+                if not _match(x, y, b):
+                    return False
+            elif x != y:
+                return False
+        return True
+
+    def rec(i, j, bb):
+        if i == len(pv):
+            return bb if j == len(nv) else None
+        if _is_gap(pv[i]):
+            for k in range(j, len(nv) + 1):
+                r = rec(i + 1, k, dict(bb))
+                if r is not None:
+                    return r
+            return None
+        if j >= len(nv):
+            return None
+        b2 = dict(bb)
+        if not _match(pv[i], nv[j], b2):
+            return None
+        return rec(i + 1, j + 1, b2)
+    r = rec(0, 0, dict(b))
+    if r is None:
+        return False
+    b.update(r)
+    return True
+
+
 def match(pattern, node, binds=None):
     p = compile_pattern(pattern) if isinstance(pattern, str) else pattern
     b = dict(binds or {})
     if isinstance(p, list):
-        if not isinstance(node, list) or len(p) != len(node):
+        if not isinstance(node, list) or not _match_list(p, node, b):
             return None
-        for x, y in zip(p, node):
-            if not _match(x, y, b):
-                return None
         return b
     return b if _match(p, node, b) else None
 
